@@ -383,6 +383,7 @@ struct options
     unsigned timeout_ms = 60000;
     std::size_t max_paths = 200000;
     unsigned split_parts = 1, split_part = 0, split_depth = 10;
+    unsigned long seed = 0;          // selects which completed paths are re-run concretely (translator validation)
     double budget_s = 1e9;
 };
 
@@ -403,6 +404,7 @@ inline options parse_args(int argc, char** argv)
         else if (a == "--split") o.split_parts = static_cast<unsigned>(std::stoul(next()));
         else if (a == "--part") o.split_part = static_cast<unsigned>(std::stoul(next()));
         else if (a == "--split-depth") o.split_depth = static_cast<unsigned>(std::stoul(next()));
+        else if (a == "--seed") o.seed = std::stoul(next());
         else if (a == "--cfg")
         {
             std::string s = next();
@@ -568,7 +570,9 @@ int run_harness(std::string const& harness_name, options const& opt, BodyS body_
             res = snapshot;
             finished = false;
         }
-        if (finished && res.validated_paths < validate_max && res.violations.empty())
+        // the first completed path and the first one whose number is >= 2 + seed % 8 are validated
+        bool const pick = res.validated_paths == 0 || (res.validated_paths == 1 && res.paths + 1 >= 2 + opt.seed % 8);
+        if (finished && pick && res.validated_paths < validate_max && res.violations.empty())
         {
             // translator validation: a model of this path's condition, run through the real code with the native type,
             // must not fail any obligation the symbolic run discharged
